@@ -119,6 +119,8 @@ type RawPeer struct {
 	reader *Flag // set when the current reader task has exited
 	pause  bool  // reader stopped because a TLS confirmation arrived
 	Link   *simnet.Link
+	// ReadGate, when set, is called by the in-process reader before every Receive.
+	ReadGate func()
 }
 
 // DialRawTCP connects a raw scripted client to addr.
@@ -173,6 +175,13 @@ func DialRawInProc(w *World, h *History, idx int, addr lime.InProcessAddr, buf i
 	p := &RawPeer{w: w, h: h, Idx: idx, Kind: "inproc", tr: t, closed: NewFlag(), newFrm: make(chan struct{}, 64)}
 	p.startReader()
 	return p, nil
+}
+
+// NewRawInProcFromTransport wraps the accepted end of an in-process connection as a scripted peer.
+func NewRawInProcFromTransport(w *World, h *History, idx int, t lime.Transport) *RawPeer {
+	p := &RawPeer{w: w, h: h, Idx: idx, Kind: "inproc", tr: t, closed: NewFlag(), newFrm: make(chan struct{}, 64)}
+	p.startReader()
+	return p
 }
 
 func (p *RawPeer) note(kind string, frame map[string]interface{}, raw, note string) {
@@ -248,6 +257,9 @@ func (p *RawPeer) startReader() {
 		go func() {
 			defer done.Set()
 			for {
+				if p.ReadGate != nil {
+					p.ReadGate() // a peer that stops reading for a while
+				}
 				ctx, cancel := context.WithTimeout(context.Background(), 6*time.Hour)
 				env, err := p.tr.Receive(ctx)
 				cancel()
